@@ -197,6 +197,7 @@ def decide(label, ob, timeout_ms=20000, twin=False, max_paths=64, prove_defined=
             out.update(status="unsupported", detail="comparison: " + str(e)[:200])
             return out
         out["cells"] += len(conj)
+        conj = conj + c.must_prove()
         goal = z3.And(*conj) if conj else z3.BoolVal(True)
         if not z3.is_true(z3.simplify(goal)):
             out["nontrivial"] = True
